@@ -15,10 +15,26 @@ def run(res):
     core.std_proof_coverage(res, "C02")
     l1.run(res, "C02", "pairpush", "Model.PairPush Model.PairPushOracle", "pp_model", "PP0", ORACLES,
            "PAIR/PUSH/PULL behaviour differs from the model (Model/PairPush.v)")
+    # the shape Model/Wakeup.v assumes (cond = false), re-read from protocol/xpush/xpush.go on every run
+    gd = core.gen_consts("C02")
+    obl = core.check_gen_obligations("C02", gd, "From MV Require Import Lib.Bytes Model.Hops.\nFrom MVgen Require Import Consts.\n",
+                                     [("C02_gen_push_signal_unconditional", "fst gen_push_signal = true", "vm_compute. reflexivity.")])
+    failed = [(n, e) for n, ok, e in obl if not ok]
+    res.coverage["discharged"] += len(obl) - len(failed)
+    res.coverage["theorems"] += [n for n, _, _ in obl]
+    res.coverage["generated_obligations"] = {n: ok for n, ok, _ in obl}
+    nviol = len(res.violations) if hasattr(res, "violations") else 0
     # below the granularity of the histories: several goroutines sending on one PUSH / PAIR socket at the same instant, through real
     # sockets (harness/cmd/c11conc): exactly once, per-sender order, and no sender or queued message left behind
     from .c11 import run_concurrent
     res.coverage["concurrent_senders"] = run_concurrent(res, "C02", env={"C11CONC_ONLY": "pushpair"})
+    for n, e in failed:
+        found = (len(res.violations) if hasattr(res, "violations") else 0) > nviol
+        res.violation("obligation:" + n, "xpush SendMsg no longer signals the forwarding goroutine unconditionally after putting the message on the send queue (the shape "
+                      "Model/Wakeup.v's theorems C02_push_no_lost_wakeup / C02_push_queued_message_moves are about; the conditional variant is refuted by "
+                      "C02_push_conditional_signal_refuted): " + e[-300:],
+                      {"theorem": n, "coqc": e, "translator": "harness/cmd/consts pushSignal", "search": "harness/cmd/c11conc fastRounds (reported separately when it finds the stall)"},
+                      found_input=found)
     res.coverage["trusted_base"] = core.COQ_TRUSTED + [
         "hand-written models Model/PairPush.v (+ Model/Chan.v) tied by correspondence at quiescence granularity: each stimulus is atomic in the model, so interleavings "
         "finer than one API call / one peer message / one completed transport send between quiescent points are covered neither by the theorems nor by the harness",
